@@ -20,11 +20,22 @@ def move (t : List El) : List Int × List Int × Nat :=
   (t.map (·.2), t.map (fun e => e.1.residue e.2), (t.map (·.1.moveCost)).sum)
 
 /-- `a = b`: `a` holds `b`'s values -/
-def assign (t : List El2) : List Int × Nat := (t.map (·.2.2), (t.map (·.1.copyCost)).sum)
+def assign (t : List El2) : List Int × Nat := (t.map (·.2.2), (t.map (·.1.assignCost)).sum)
 
-/-- `a = move(b)` -/
+/-- `a = move(b)`: [pairs.pair] "assigns `std::forward<first_type>(p.first)` to `first`" -/
 def moveAssign (t : List El2) : List Int × List Int × Nat :=
-  (t.map (·.2.2), t.map (fun e => e.1.residue e.2.2), (t.map (·.1.moveCost)).sum)
+  (t.map (·.2.2), t.map (fun e => e.1.residue e.2.2), (t.map (·.1.moveAssignCost)).sum)
+
+/-- `a = b` for pairs of different element types ([pairs.pair] `operator=(const pair<U1, U2>& p)`: "assigns `p.first`
+    to `first` and `p.second` to `second`"): `a` holds `b`'s values, `b` is unchanged; every element costs what a copy
+    assignment from an element of the SOURCE kind costs -/
+def convAssign (t : List ElX) : List Int × Nat := (t.map (·.2.2.2), (t.map (·.2.1.assignCost)).sum)
+
+/-- `a = move(b)` for pairs of different element types ([pairs.pair] `operator=(pair<U1, U2>&& p)`: "assigns
+    `std::forward<U1>(p.first)` to `first` and `std::forward<U2>(p.second)` to `second`"): what is left in `b` and what
+    is copied is decided by the SOURCE kind `U` - `forward<U>` of a reference kind is an lvalue: nothing is moved from -/
+def convMoveAssign (t : List ElX) : List Int × List Int × Nat :=
+  (t.map (·.2.2.2), t.map (fun e => e.2.1.residue e.2.2.2), (t.map (·.2.1.moveAssignCost)).sum)
 
 /-- `a.swap(b)`: the values are exchanged; every element is moved three times -/
 def swap (t : List El2) : List Int × List Int × Nat :=
@@ -94,6 +105,38 @@ def tupleEq (a b : List Int) : Bool := decide (a = b)
 
 /-- all elements of all tuples, in order -/
 def tupleCat (ts : List (List Int)) : List Int := ts.flatten
+
+/-! ### make_from_tuple ([tuple.apply]): `return T(get<I>(std::forward<Tuple>(t))...);` — direct-NON-list-initialisation
+
+Stated per target kind from [dcl.init.general] / [dcl.init.list] / [over.match.list], over the whole argument list. -/
+
+/-- the members of the aggregate `{a, b, c}` given `n ≤ 3` initialisers: the initialisers, then zeros -/
+def aggFrom (args : List Int) : Built := .ctor (args ++ List.replicate (3 - args.length) 0)
+
+/-- direct-non-list-initialisation `T(args...)`, at most three arguments: a class target is initialised by the constructor
+    whose parameter list matches the arguments — `initializer_list` constructors get no preference and are not viable for `int`
+    arguments —, narrowing is permitted; an aggregate target has its members initialised in order ([dcl.init.general] 16.6.2.2) -/
+def directInit : Target → List Int → Built
+  | .agg, args => aggFrom args
+  | .aggNarrow, args => aggFrom args
+  | _, args => .ctor args
+
+/-- direct-LIST-initialisation `T{args...}` — what [tuple.apply] does NOT prescribe; given here to state that the two forms
+    differ (`Props.listInit_differs`), and validated against the compiler by the `mft form=brace` lines.
+    [dcl.init.list] 3.5: empty braces and a default constructor: value-initialisation; 3.7 / [over.match.list]: first the
+    `initializer_list` constructors alone, with the whole list as one argument (viable when every element converts to the list's
+    element type without narrowing), only then all constructors; a narrowing conversion of a non-constant is ill-formed. -/
+def listInit : Target → List Int → Built
+  | .il, [] => .ctor []
+  | .il, args => .list args
+  | .ilWide, [] => .ctor []
+  | .ilWide, args => .list args
+  | .agg, args => aggFrom args
+  | .aggNarrow, [] => aggFrom []
+  | .aggNarrow, _ => .illFormed
+  | .ctorNarrow, [] => .ctor []
+  | .ctorNarrow, _ => .illFormed
+  | _, args => .ctor args
 
 /-! ## calls
 
@@ -224,16 +267,22 @@ def set (s : ASt) (i : Nat) (v : Option Fn) : ASt := fun k => if k = i then v el
 
 def ASt.init : ASt := fun _ => none
 
+/-- Does construction / assignment from a source expression of this category take the target away from the source?
+    Only an rvalue of non-const type may be pilfered ([func.wrap.func.con]: `function(function&& f)`; every other source —
+    a non-const lvalue, a const lvalue, a const rvalue — is copied from through `function(const function&)`: "`!*this` if `!f`,
+    otherwise `*this` targets a copy of `f.target()`", and `f` is unchanged).  That the moved-from source is then EMPTY is what
+    libstdc++ does and what the property demands of `inplace_function` ("moving ... yields wrappers that call an equivalent
+    target", the source "reports empty"). -/
+def gives (q : Cat) : Bool := q == .r
+
 /-- copy = an equivalent target in both; move = the target changes owner, the source is empty;
     swap = exchange; a call of an empty object reports `bad_function_call` and calls nothing;
     a call of a non-empty object calls its target exactly once -/
 def step (s : ASt) : Op → ASt × Out × Log
   | .ctorEmpty i => (set s i none, .unit, [])
   | .ctorFn i f => (set s i (some f), .unit, [])
-  | .ctorCopy i j _ => (set s i (s j), .unit, [])
-  | .ctorMove i j _ => (set (set s j none) i (s j), .unit, [])
-  | .assignCopy i j _ => (set s i (s j), .unit, [])
-  | .assignMove i j _ => (set (set s j none) i (s j), .unit, [])
+  | .ctorFrom i j _ q => (set (if gives q then set s j none else s) i (s j), .unit, [])
+  | .assignFrom i j _ q => (set (if gives q then set s j none else s) i (s j), .unit, [])
   | .assignFn i f => (set s i (some f), .unit, [])
   | .assignNull i => (set s i none, .unit, [])
   | .swap i j => (set (set s i (s j)) j (s i), .unit, [])
@@ -255,8 +304,7 @@ def run : ASt → List Op → ASt × List Out × Log
 
 /-- documented precondition of a history line: an object is not copy/move-constructed from itself -/
 def valid : Op → Bool
-  | .ctorCopy i j _ => i != j
-  | .ctorMove i j _ => i != j
+  | .ctorFrom i j _ _ => i != j
   | _ => true
 
 end Tetl.C20.Spec
